@@ -17,6 +17,10 @@ fields decrypt to — RSA is a parameter).
     that decrypts to exactly (nonce, sec), the session server says online for (name, sec), `sec` has an AES key
     length, `name` matches the pattern; nothing after the chain is such an admission;
   * `success_requires_session_auth`: the admitted name is the name of that chain;
+  * the verify-token proof (`TokenProof`): without a valid profile key (all protocols but 1.19–1.19.2, and keyless
+    logins there) the token field decrypts to EXACTLY the issued token — a salted response does not replace it
+    (`keyless_admission_requires_exact_token`, `salt_does_not_replace_token`); with a key the response must be salted
+    and correctly signed (`key_requires_salted_signature`); bad / missing keys are refused (`bad_key_refused`);
   * `at_most_one_success` (any configuration);
   * out-of-order / repeated / foreign packets close without any other output — ALSO while the completion is
     deferred (`deferred_*`); a closed connection stays silent and closed; plugin responses with ids that are
@@ -30,31 +34,33 @@ open Gate Gate.C08
 
 theorem admit_requires_auth (cfg : Cfg) (env : Env) (ins : List In)
     (hadm : ((run cfg env {} ins).2.any (isAuthAdm cfg)) = true) :
-    ∃ (name : Bytes) (cs : List Int) (nonce sec : Bytes) (tail : List Out),
+    ∃ (name : Bytes) (key : KeyClass) (cs : List Int) (nonce sec : Bytes) (tok : Option Bytes) (salt sg : Bool)
+      (tail : List Out),
       (run cfg env {} ins).2 =
         .preLoginEvent name :: (msgIds (cfg.preMsgs name)).map .pluginMsg ++ cs.map .consumed ++
           [.encReq nonce, .encOn sec, .hasJoined name sec] ++ admitSeq cfg name true ++ tail ∧
       tail.any (isAuthAdm cfg) = false ∧
-      In.login name nonce ∈ ins ∧ In.encResp (some nonce) (some sec) ∈ ins ∧
+      In.login name nonce key ∈ ins ∧ In.encResp tok (some sec) salt sg ∈ ins ∧ TokenProof cfg key nonce tok salt sg ∧
       env.sess name sec = .online ∧ keyLenOk sec.length = true ∧ validName name = true ∧
       needsAuth cfg name = true := by
   have h0 : Inv cfg env [] {} [] :=
     ⟨fun _ => rfl, by intro h; simp at h, by intro h; simp at h, Or.inl rfl⟩
   have h := (inv_run cfg env ins [] {} [] h0).good
   simp only [List.nil_append] at h
-  rcases h with h | ⟨name, cs, nonce, sec, tail, ho, ht, h1, h2, h3, h4, h5, h6⟩
+  rcases h with h | ⟨name, key, cs, nonce, sec, tok, salt, sg, tail, ho, ht, h1, h2, hp, h3, h4, h5, h6⟩
   · rw [h] at hadm; cases hadm
-  · exact ⟨name, cs, nonce, sec, tail, by simpa [chain, preamble, List.append_assoc] using ho, ht, h1, h2, h3, h4, h5, h6⟩
+  · exact ⟨name, key, cs, nonce, sec, tok, salt, sg, tail, by simpa [chain, preamble, List.append_assoc] using ho,
+      ht, h1, h2, hp, h3, h4, h5, h6⟩
 
 /-- LoginSuccess for a name that requires authentication ⇒ the client sent a login start with THAT name, returned
     the token issued for it, and the session server confirmed the join for that name and the decrypted secret -/
 theorem success_requires_session_auth (cfg : Cfg) (env : Env) (ins : List In)
     (n : Bytes) (o : Bool) (h : Out.success n o ∈ (run cfg env {} ins).2) (hn : needsAuth cfg n = true) :
-    ∃ nonce sec, In.login n nonce ∈ ins ∧ In.encResp (some nonce) (some sec) ∈ ins ∧
-      env.sess n sec = .online ∧ o = true := by
+    ∃ nonce sec key tok salt sg, In.login n nonce key ∈ ins ∧ In.encResp tok (some sec) salt sg ∈ ins ∧
+      TokenProof cfg key nonce tok salt sg ∧ env.sess n sec = .online ∧ o = true := by
   have hadm : ((run cfg env {} ins).2.any (isAuthAdm cfg)) = true := by
     rw [List.any_eq_true]; exact ⟨_, h, by simp [isAuthAdm, hn]⟩
-  obtain ⟨name, cs, nonce, sec, tail, ho, ht, h1, h2, h3, _, _, _⟩ := admit_requires_auth cfg env ins hadm
+  obtain ⟨name, key, cs, nonce, sec, tok, salt, sg, tail, ho, ht, h1, h2, hp, h3, _, _, _⟩ := admit_requires_auth cfg env ins hadm
   rw [ho] at h
   have hnt : Out.success n o ∉ tail := by
     intro hm
@@ -72,7 +78,46 @@ theorem success_requires_session_auth (cfg : Cfg) (env : Env) (ins : List In)
   have hno : n = name ∧ o = true := by
     cases hc : cfg.compression <;> simp [admitSeq, hc] at this <;> exact this
   obtain ⟨rfl, rfl⟩ := hno
-  exact ⟨nonce, sec, h1, h2, h3, rfl⟩
+  exact ⟨nonce, sec, key, tok, salt, sg, h1, h2, hp, h3, rfl⟩
+
+/-- a connection without a (valid) profile key — every protocol outside 1.19–1.19.2, and keyless logins inside —
+    proves the token only by returning exactly the issued token: no salted form, no signature claim replaces it -/
+theorem keyless_admission_requires_exact_token (cfg : Cfg) (key : KeyClass) (nonce : Bytes) (tok : Option Bytes)
+    (salt sg : Bool) (hk : cfg.keyEra = false ∨ key ≠ .valid) (h : TokenProof cfg key nonce tok salt sg) :
+    tok = some nonce := by
+  unfold TokenProof at h
+  have : effKey cfg key ≠ .valid := by
+    unfold effKey
+    rcases hk with hk | hk
+    · simp [hk]
+    · split <;> simp [hk]
+  simpa [this] using h
+
+/-- step level, the class of the second red-team change: WHICH verify-token check applies is decided by the key
+    the connection has, not by the form of the response — without a key, a response whose token field does not
+    decrypt to the issued token closes the connection, salted or not, whatever signature it claims -/
+theorem salt_does_not_replace_token (cfg : Cfg) (env : Env) (s : St) (tok secret : Option Bytes) (salt sg : Bool)
+    (hp : s.phase = .encSent) (hk : s.hasKey = false) (ht : tok ≠ some s.verify) :
+    step cfg env s (.encResp tok secret salt sg) = ({ phase := .closed }, [.close]) := by
+  rw [step_enc_encSent hp]
+  cases he : s.verify.isEmpty with
+  | true => exact encStep_noverify he
+  | false => exact encStep_badtoken he (by simp [tokenOk, hk, ht])
+
+/-- with a key the response must be salted and correctly signed; an (even correctly) encrypted token does not do -/
+theorem key_requires_salted_signature (cfg : Cfg) (env : Env) (s : St) (tok secret : Option Bytes) (salt sg : Bool)
+    (hp : s.phase = .encSent) (hk : s.hasKey = true) (h : (cfg.keyEra && salt) = false ∨ sg = false) :
+    step cfg env s (.encResp tok secret salt sg) = ({ phase := .closed }, [.close]) := by
+  rw [step_enc_encSent hp]
+  cases he : s.verify.isEmpty with
+  | true => exact encStep_noverify he
+  | false => exact encStep_badtoken he (by rcases h with h | h <;> simp [tokenOk, hk, h])
+
+/-- an expired or wrongly signed key, or a missing key where keys are forced, is refused before the PreLogin event -/
+theorem bad_key_refused (cfg : Cfg) (env : Env) (name nonce : Bytes) (key : KeyClass) (r : Reason)
+    (hd : decodable name = true) (hv : validName name = true) (hk : keyReject cfg key = some r) :
+    step cfg env {} (.login name nonce key) = ({ phase := .closed }, [.disconnect r]) :=
+  (step_login_expect rfl).trans (loginStep_keyreject hd hv hk)
 
 /-- at most one LoginSuccess, for every configuration -/
 theorem at_most_one_success (cfg : Cfg) (env : Env) (ins : List In) :
@@ -100,23 +145,23 @@ theorem at_most_one_success (cfg : Cfg) (env : Env) (ins : List In) :
 
 /-- a login start in any state but loginPacketExpected closes the connection, nothing else happens —
     in particular while the completion of the first login start is deferred -/
-theorem second_login_closes (cfg : Cfg) (env : Env) (s : St) (name nonce : Bytes)
+theorem second_login_closes (cfg : Cfg) (env : Env) (s : St) (name nonce : Bytes) (key : KeyClass)
     (h : s.phase = .waiting ∨ s.phase = .encSent ∨ s.phase = .successSent) :
-    step cfg env s (.login name nonce) = ({ phase := .closed }, [.close]) := step_login_wrong h
+    step cfg env s (.login name nonce key) = ({ phase := .closed }, [.close]) := step_login_wrong h
 
 /-- an encryption response in any state but encryptionRequestSent (none requested yet — also while the request
     is deferred —, or a second one) closes -/
 theorem unexpected_encryption_response_closes (cfg : Cfg) (env : Env) (s : St) (tok secret : Option Bytes)
-    (h : s.phase = .expect ∨ s.phase = .waiting ∨ s.phase = .successSent) :
-    step cfg env s (.encResp tok secret) = ({ phase := .closed }, [.close]) := step_enc_wrong h
+    (salt sg : Bool) (h : s.phase = .expect ∨ s.phase = .waiting ∨ s.phase = .successSent) :
+    step cfg env s (.encResp tok secret salt sg) = ({ phase := .closed }, [.close]) := step_enc_wrong h
 
 /-- while the completion is deferred EVERY packet other than a plugin response closes the connection -/
 theorem deferred_completion_closes_on_any_login_packet (cfg : Cfg) (env : Env) (s : St) (i : In)
     (hp : s.phase = .waiting) (hi : ∀ id, i ≠ .pluginResp id) :
     step cfg env s i = ({ phase := .closed }, [.close]) := by
   cases i with
-  | login n v => exact step_login_wrong (Or.inl hp)
-  | encResp t c => exact step_enc_wrong (Or.inr (Or.inl hp))
+  | login n v k => exact step_login_wrong (Or.inl hp)
+  | encResp t c sl sg => exact step_enc_wrong (Or.inr (Or.inl hp))
   | pluginResp id => exact absurd rfl (hi id)
   | ack => exact step_ack_wrong (Or.inr (Or.inl hp))
   | other => exact step_other_open (Or.inr (Or.inl hp))
@@ -124,23 +169,23 @@ theorem deferred_completion_closes_on_any_login_packet (cfg : Cfg) (env : Env) (
 /-- the red-team scenario, for every configuration: a second login start while a PreLogin plugin message of the
     first is unanswered closes the connection; whatever follows (the late answer included), nothing more is
     emitted — no second PreLogin event, no admission under either name -/
-theorem deferred_second_login_never_admits (cfg : Cfg) (env : Env) (n1 v1 n2 v2 : Bytes) (rest : List In)
-    (hd : decodable n1 = true) (hv : validName n1 = true) (hden : cfg.preLogin n1 ≠ .denied)
-    (hk : cfg.preMsgs n1 ≠ 0) :
-    (run cfg env {} (.login n1 v1 :: .login n2 v2 :: rest)).2 =
+theorem deferred_second_login_never_admits (cfg : Cfg) (env : Env) (n1 v1 n2 v2 : Bytes) (k1 k2 : KeyClass) (rest : List In)
+    (hd : decodable n1 = true) (hv : validName n1 = true) (hkr : keyReject cfg k1 = none)
+    (hden : cfg.preLogin n1 ≠ .denied) (hk : cfg.preMsgs n1 ≠ 0) :
+    (run cfg env {} (.login n1 v1 k1 :: .login n2 v2 k2 :: rest)).2 =
       .preLoginEvent n1 :: (msgIds (cfg.preMsgs n1)).map .pluginMsg ++ [.close] ∧
-    (run cfg env {} (.login n1 v1 :: .login n2 v2 :: rest)).1.phase = .closed := by
-  have h1 : step cfg env {} (.login n1 v1) = _ := (step_login_expect rfl).trans (loginStep_wait hd hv hden hk)
-  have h2 : step cfg env { phase := .waiting, name := n1, verify := v1, outstanding := msgIds (cfg.preMsgs n1) }
-      (.login n2 v2) = closeWith [.close] := step_login_wrong (Or.inl rfl)
+    (run cfg env {} (.login n1 v1 k1 :: .login n2 v2 k2 :: rest)).1.phase = .closed := by
+  have h1 : step cfg env {} (.login n1 v1 k1) = _ := (step_login_expect rfl).trans (loginStep_wait hd hv hkr hden hk)
+  have h2 : step cfg env (⟨.waiting, n1, v1, msgIds (cfg.preMsgs n1), effKey cfg k1 == .valid⟩ : St)
+      (.login n2 v2 k2) = closeWith [.close] := step_login_wrong (Or.inl rfl)
   simp only [run, h1, h2, closeWith_fst, closeWith_snd, run_closed cfg env rest { phase := .closed } rfl]
   simp
 
-/-- a wrong or undecryptable token, or an undecryptable secret, closes without enabling encryption or asking
+/-- a failed verify-token check, or an undecryptable secret, closes without enabling encryption or asking
     the session server -/
-theorem bad_token_or_secret_closes (cfg : Cfg) (env : Env) (s : St) (tok secret : Option Bytes)
-    (hp : s.phase = .encSent) (h : tok ≠ some s.verify ∨ secret = none) :
-    step cfg env s (.encResp tok secret) = ({ phase := .closed }, [.close]) := by
+theorem bad_token_or_secret_closes (cfg : Cfg) (env : Env) (s : St) (tok secret : Option Bytes) (salt sg : Bool)
+    (hp : s.phase = .encSent) (h : tokenOk s tok (cfg.keyEra && salt) sg = false ∨ secret = none) :
+    step cfg env s (.encResp tok secret salt sg) = ({ phase := .closed }, [.close]) := by
   rw [step_enc_encSent hp]
   cases he : s.verify.isEmpty with
   | true => exact encStep_noverify he
@@ -148,9 +193,9 @@ theorem bad_token_or_secret_closes (cfg : Cfg) (env : Env) (s : St) (tok secret 
     rcases h with h | h
     · exact encStep_badtoken he h
     · subst h
-      by_cases ht : tok = some s.verify
-      · subst ht; exact encStep_nosecret he
-      · exact encStep_badtoken he ht
+      cases ht : tokenOk s tok (cfg.keyEra && salt) sg with
+      | true => exact encStep_nosecret he ht
+      | false => exact encStep_badtoken he ht
 
 theorem early_ack_closes (cfg : Cfg) (env : Env) (s : St)
     (h : s.phase = .expect ∨ s.phase = .waiting ∨ s.phase = .encSent) :
@@ -184,34 +229,44 @@ theorem plugin_response_ignored (cfg : Cfg) (env : Env) (s : St) (id : Int)
 
 /-! ### contrast: without required authentication the login start alone admits -/
 
-theorem offline_admission (cfg : Cfg) (env : Env) (name nonce : Bytes) (hn : needsAuth cfg name = false)
-    (hd : cfg.preLogin name ≠ .denied) (hk : cfg.preMsgs name = 0)
+theorem offline_admission (cfg : Cfg) (env : Env) (name nonce : Bytes) (key : KeyClass) (hn : needsAuth cfg name = false)
+    (hd : cfg.preLogin name ≠ .denied) (hk : cfg.preMsgs name = 0) (hkr : keyReject cfg key = none)
     (hv : validName name = true) (hdec : decodable name = true) :
-    (run cfg env {} [.login name nonce]).2 = .preLoginEvent name :: admitSeq cfg name false := by
-  have h : step cfg env {} (.login name nonce) = _ := (step_login_expect rfl).trans (loginStep_now hdec hv hd hk)
-  have hc := complete_offline (cfg := cfg) (s := { phase := .waiting, name := name, verify := nonce, outstanding := [] }) hn
+    (run cfg env {} [.login name nonce key]).2 = .preLoginEvent name :: admitSeq cfg name false := by
+  have h : step cfg env {} (.login name nonce key) = _ := (step_login_expect rfl).trans (loginStep_now hdec hv hkr hd hk)
+  have hc := complete_offline (cfg := cfg) (s := (⟨.waiting, name, nonce, [], effKey cfg key == .valid⟩ : St)) hn
   simp [run, h, hc]
 
 /-! ### non-vacuity -/
 
 def demoEnv : Env := ⟨fun n s => if n = [65, 98] ∧ s.length = 16 then .online else .offline⟩
 def demoSecret : Bytes := List.replicate 16 7
-def demoCfg : Cfg := ⟨true, fun _ => .allowed, fun _ => 0, true⟩
+def demoCfg : Cfg := ⟨true, fun _ => .allowed, fun _ => 0, true, false, true⟩
 /-- PreLogin subscribers force offline mode for the name "sv" only and probe every login with one plugin message -/
-def demoCfg2 : Cfg := ⟨true, fun n => if n = [115, 118] then .forceOffline else .allowed, fun _ => 1, true⟩
+def demoCfg2 : Cfg := ⟨true, fun n => if n = [115, 118] then .forceOffline else .allowed, fun _ => 1, true, false, true⟩
+/-- a 1.19.x connection, keys not forced -/
+def demoCfg3 : Cfg := ⟨true, fun _ => .allowed, fun _ => 0, true, true, false⟩
 
 example : needsAuth demoCfg [65, 98] = true ∧
-    ((run demoCfg demoEnv {} [.login [65, 98] [1, 2, 3, 4], .pluginResp 3,
-        .encResp (some [1, 2, 3, 4]) (some demoSecret)]).2.any (isAuthAdm demoCfg)) = true := by decide
-example : ((run demoCfg demoEnv {} [.login [65, 98] [1, 2, 3, 4],
-        .encResp (some [1, 2, 3, 5]) (some demoSecret)]).2) = [.preLoginEvent [65, 98], .encReq [1, 2, 3, 4], .close] := by decide
-example : (run demoCfg demoEnv {} [.login [65, 98] [1, 2, 3, 4], .login [65, 98] [1, 2, 3, 4]]).1.phase = .closed := by decide
+    ((run demoCfg demoEnv {} [.login [65, 98] [1, 2, 3, 4] .none, .pluginResp 3,
+        .encResp (some [1, 2, 3, 4]) (some demoSecret) false false]).2.any (isAuthAdm demoCfg)) = true := by decide
+example : ((run demoCfg demoEnv {} [.login [65, 98] [1, 2, 3, 4] .none,
+        .encResp (some [1, 2, 3, 5]) (some demoSecret) false false]).2) = [.preLoginEvent [65, 98], .encReq [1, 2, 3, 4], .close] := by decide
+example : (run demoCfg demoEnv {} [.login [65, 98] [1, 2, 3, 4] .none, .login [65, 98] [1, 2, 3, 4] .none]).1.phase = .closed := by decide
 /-- deferred completion: the encryption request is issued only after the plugin message was answered -/
-example : (run demoCfg2 demoEnv {} [.login [65, 98] [1, 2, 3, 4], .pluginResp 1]).2 =
+example : (run demoCfg2 demoEnv {} [.login [65, 98] [1, 2, 3, 4] .none, .pluginResp 1]).2 =
     [.preLoginEvent [65, 98], .pluginMsg 1, .consumed 1, .encReq [1, 2, 3, 4]] := by decide
-/-- the red-team sequence: forced-offline service account, then a second name, then the late answer -/
-example : (run demoCfg2 demoEnv {} [.login [115, 118] [1, 2, 3, 4], .login [65, 98] [5, 6, 7, 8], .pluginResp 1]).2 =
+/-- the first red-team sequence: forced-offline service account, then a second name, then the late answer -/
+example : (run demoCfg2 demoEnv {} [.login [115, 118] [1, 2, 3, 4] .none, .login [65, 98] [5, 6, 7, 8] .none, .pluginResp 1]).2 =
     [.preLoginEvent [115, 118], .pluginMsg 1, .close] := by decide
+/-- the second red-team input: 1.19.x, no profile key, a SALTED response with garbage in the token field -/
+example : (run demoCfg3 demoEnv {} [.login [65, 98] [1, 2, 3, 4] .none, .encResp none (some demoSecret) true true]).2 =
+    [.preLoginEvent [65, 98], .encReq [1, 2, 3, 4], .close] := by decide
+/-- a valid key: the salted, correctly signed response is what admits (the encrypted token alone does not) -/
+example : ((run demoCfg3 demoEnv {} [.login [65, 98] [1, 2, 3, 4] .valid, .encResp none (some demoSecret) true true]).2.any
+      (isAuthAdm demoCfg3)) = true ∧
+    (run demoCfg3 demoEnv {} [.login [65, 98] [1, 2, 3, 4] .valid, .encResp (some [1, 2, 3, 4]) (some demoSecret) false true]).2 =
+      [.preLoginEvent [65, 98], .encReq [1, 2, 3, 4], .close] := by decide
 
 /-! ### source shape (regenerated from /repo on every run) -/
 
